@@ -2,7 +2,9 @@
 #define PV_SHIM_STRING_H
 #include <stddef.h>
 void* memcpy(void*, const void*, size_t); void* memset(void*, int, size_t); int memcmp(const void*, const void*, size_t);
-void* memmove(void*, const void*, size_t);
-size_t strlen(const char*); int strcmp(const char*, const char*); int strncmp(const char*, const char*, size_t);
-char* strncpy(char*, const char*, size_t); char* strcpy(char*, const char*);
+void* memmove(void*, const void*, size_t); void* memchr(const void*, int, size_t); void* memrchr(const void*, int, size_t);
+size_t strlen(const char*); size_t strnlen(const char*, size_t); int strcmp(const char*, const char*); int strncmp(const char*, const char*, size_t);
+char* strncpy(char*, const char*, size_t); char* strcpy(char*, const char*); char* strcat(char*, const char*); char* strncat(char*, const char*, size_t);
+char* strchr(const char*, int); char* strrchr(const char*, int); char* strstr(const char*, const char*);
+size_t strspn(const char*, const char*); size_t strcspn(const char*, const char*); char* strpbrk(const char*, const char*);
 #endif
